@@ -442,6 +442,22 @@ func runC15(c *eng.Ctx) {
 		}
 	}
 
+	// ---- R7 the hook's message is data, not a format
+	r7 := c.Rule("C15.R7", "H:idiom", "on the conversion path no text is passed as the format of a fmt *f function without arguments (a hook's failedMessage containing `%` would be garbled)", 1)
+	nfmt := 0
+	for _, pk := range []string{pkgConv, pkgOp} {
+		for _, f := range funcsOfPkg(p, pk) {
+			for _, call := range nonConstFormatCalls(f) {
+				nfmt++
+				c.Touch(f)
+				r7.Bad(fmt.Sprintf("%s formats `%s`", f.Key, eng.Short(p.Fset, call)), call.Pos(), "a non-constant string is used as a format: a message that contains `%` (e.g. \"150% of quota\") reaches the API server as \"150%!o(MISSING)f quota\"")
+			}
+		}
+	}
+	if nfmt == 0 {
+		r7.Ok("no non-constant format strings in "+pkgConv+" and "+pkgOp, token.NoPos, "messages are passed as data (errors.New, %s)")
+	}
+
 	// ---- R6
 	r6 := c.Rule("C15.R6", "D:provenance", "FindConversionChain: a new path is PathsCache[prefixRule] followed by one rule taken from NextRules(prefixRule.ToVersion)", 1)
 	if f := r6.NeedFunc(pkgConv + ".(ChainStorage).FindConversionChain"); f != nil && pathsCache != nil {
@@ -514,6 +530,37 @@ func runC15(c *eng.Ctx) {
 				return true
 			})
 			ok = argOK && stored
+			// every round extends the whole cache: the prefixes come from a call, evaluated inside the round loop, of a
+			// chain method that reads PathsCache (a locally kept subset - a "frontier" - forgets the paths that earlier
+			// requests left in the cache, and the search gives up although a chain exists)
+			fromCache := false
+			if outer != nil {
+				if oc, isC := ast.Unparen(outer.X).(*ast.CallExpr); isC {
+					if fn, isF := eng.CalleeOf(info, oc).(*types.Func); isF {
+						if cf := p.FuncOf(fn); cf != nil && cf.Decl.Body != nil {
+							ast.Inspect(cf.Decl.Body, func(m ast.Node) bool {
+								if sel, isS := m.(*ast.SelectorExpr); isS && cf.Pkg.TypesInfo.Uses[sel.Sel] == types.Object(pathsCache) {
+									fromCache = true
+								}
+								return true
+							})
+						}
+					}
+				}
+				if eng.IsField(info, outer.X, pathsCache) {
+					fromCache = true
+				}
+				inRound := false
+				for _, st := range eng.EnclosingStmts(f.Decl.Body, outer.Pos()) {
+					if fs, isF := st.(*ast.ForStmt); isF && ast.Stmt(fs) != ast.Stmt(outer) {
+						inRound = true
+					}
+				}
+				if !inRound {
+					fromCache = false
+				}
+			}
+			r6.Check(fromCache, f.Key+" every-round-extends-the-whole-cache", pos, "the prefixes of a round are recomputed from PathsCache", "the paths extended in a round are not recomputed from the whole paths cache: paths cached by earlier requests are never extended, and a conversion chain that exists is reported as not found")
 		}
 		r6.Check(ok, f.Key+" path-extension", pos, "newPath = PathsCache[prefix] ++ [next], next from NextRules(prefix.ToVersion)", "a cached path is not built as `cached path of the prefix rule followed by a rule that starts at the prefix's ToVersion`")
 	}
